@@ -309,7 +309,7 @@ fn supervise(property: &str, tier: Tier, pc: &PropertyCheck, cfg: &CheckCfg) -> 
     }
     // the evidence file was written by the last worker process: add what only the supervisor knows
     if !crashes.is_empty() {
-        let ev_path = root.join("evidence").join(format!("{}.json", property));
+        let ev_path = root.join("evidence").join(match std::env::var("VERIF_EVIDENCE_TAG") { Ok(tag) => format!("{}.{}.json", property, tag), Err(_) => format!("{}.json", property) });
         if let Ok(text) = std::fs::read_to_string(&ev_path) {
             if let Ok(mut ev) = serde_json::from_str::<serde_json::Value>(&text) {
                 ev["coverage"]["runs_that_killed_or_blocked_the_worker_process"] = serde_json::json!(crashes.iter().map(|(p, i, s)| serde_json::json!({"part": p, "run_index": i, "how": if *s == -1 { "blocked forever" } else { signal_name(*s) }})).collect::<Vec<_>>());
